@@ -49,8 +49,18 @@ pub fn v_format(args: &[VArg]) -> (r: String) { unimplemented!() }
 pub fn v_eprintln(args: &[VArg]) { }
 #[verifier::external_body]
 pub fn v_eprint(args: &[VArg]) { }
+/// Permission to put text on standard output.  Uninterpreted; only the key commands (whose result IS text on stdout)
+/// carry it in their `requires`.  The file commands do not, so a `println!` in them - which would land inside a
+/// ciphertext or plaintext written to stdout - is a failed obligation (C08, C06).
+pub uninterp spec fn stdout_text_permitted() -> bool;
 #[verifier::external_body]
-pub fn v_println(args: &[VArg]) { }
+pub fn v_println(args: &[VArg])
+    requires stdout_text_permitted()
+{ }
+#[verifier::external_body]
+pub fn v_print(args: &[VArg])
+    requires stdout_text_permitted()
+{ }
 
 // --- std::fs / std::io / std::path as the CLI's OnDemandFile uses them (assumed contracts, C13)
 /// Permission to create or truncate a file at the output path.  Uninterpreted: no function can establish it,
